@@ -181,18 +181,25 @@ func (sc *sysScenario) buildOps() {
 								return []string{"ok"}
 							},
 						})
-						for _, patch := range []bool{false, true} {
-							patch := patch
+						for _, style := range []string{"update", "patch", "migrate", "migrate-patch"} {
+							patch := strings.HasSuffix(style, "patch")
+							migrate := strings.HasPrefix(style, "migrate")
 							var checker boltz.FieldChecker
 							label := "update"
 							if patch {
-								checker = boltz.MapFieldChecker{"name": struct{}{}, "isSystem": struct{}{}}
-								label = "patch[name,isSystem]"
+								checker = boltz.MapFieldChecker{"name": struct{}{}, "isSystem": struct{}{}, "createdAt": struct{}{}}
+								label = "patch[name,isSystem,createdAt]"
+							}
+							if migrate {
+								// an entity marked as migrated (it brings its own timestamps) is still only updated
+								label += "[Migrate]"
 							}
 							sc.ops = append(sc.ops, explore.Op{
 								Name: fmt.Sprintf("%s@%s(%s,name=%s,isSystem=%v)@%s", label, via, id, name, flag, cn[system]),
 								Do: func(ctx boltz.MutateContext) error {
-									return store.Update(ctxOf(system, ctx), sc.rec(id, name, flag), checker)
+									r := sc.rec(id, name, flag)
+									r.Migrate = migrate
+									return store.Update(ctxOf(system, ctx), r, checker)
 								},
 								Apply: func(mm explore.Model) []string {
 									m := mm.(*sysModel)
